@@ -433,9 +433,14 @@ def build(tier, seed):
 
     def sp_days():
         f = unwrap(XD.DAYS)
+        # all whole serials but Excel's fictitious 60: serials below 60 sit one day later in the proleptic calendar (serial 59 = 1900-02-28)
+        dom = [a_ >= 1, a_ <= NMAX, a_ != 60, b_ >= 1, b_ <= NMAX, b_ != 60]
+
+        def o(v):
+            return z3.If(v >= 61, REF0 + v, REF1 + v)
 
         def encode():
-            leaves, it = K.explore(f, dts(), two, DM.DATE_MODELS)
+            leaves, it = K.explore(f, [DM.MXlDateTime(DM.MDT(o(a_), 0)), DM.MXlDateTime(DM.MDT(o(b_), 0))], dom, DM.DATE_MODELS)
             return leaves, it, {'a': a_, 'b': b_}
 
         def bad(l):
@@ -444,8 +449,9 @@ def build(tier, seed):
         def replay(a):
             got = native_call(XD.DAYS, a['a'], a['b'])
             return got == ('num', float(a['a'] - a['b'])), f'DAYS({a["a"]}, {a["b"]}) = {got}'
-        return dict(encode=encode, bad=bad, replay=replay, norm=norm, native=lambda a: native_call(XD.DAYS, a['a'], a['b']), samples=[{'a': 43831, 'b': 43800}, {'a': 61, 'b': 2958465}], show=lambda a: f'DAYS({a})')
-    add('DAYS', sp_days, 'every ordered pair of whole serials 61..2958465: end - start')
+        return dict(encode=encode, bad=bad, replay=replay, norm=norm, native=lambda a: native_call(XD.DAYS, a['a'], a['b']),
+                    samples=[{'a': 43831, 'b': 43800}, {'a': 61, 'b': 2958465}, {'a': 5, 'b': 40}], show=lambda a: f'DAYS({a})')
+    add('DAYS', sp_days, 'every ordered pair of whole serials 1..2958465 except the fictitious serial 60: end - start, also across 1900-02-28 / 1900-03-01 (serials 59 / 61)')
 
     def sp_datedif():
         f = unwrap(XD.DATEDIF)
